@@ -1200,6 +1200,15 @@ func (p *pinner) Update(ctx context.Context, from, to cid.Cid, unpin bool) error
 		return err
 	}
 
+	// Recursive supersedes direct: like a recursive Pin of `to`, drop its direct
+	// pins (after the recursive pin is stored, so `to` never loses protection).
+	//
+	// TODO: remove this to support multiple pins per CID
+	_, err = p.removePinsForCid(ctx, to, ipfspinner.Direct)
+	if err != nil {
+		return err
+	}
+
 	if unpin {
 		_, err = p.removePinsForCid(ctx, from, ipfspinner.Recursive)
 		if err != nil {
